@@ -13,3 +13,4 @@ import Props.C06
 #print axioms C06.C06_withdrawals_executed
 #print axioms C06.C06_reset_delivers_nothing
 #print axioms C06.C06_handling_independent_of_history
+#print axioms C06.C06_withdrawals_carry_path_ids
